@@ -43,7 +43,7 @@ partial def dump : Expr → Json
   | .cst v s f => Json.arr #[jstr "cst", jnat v, jnat s, jb f]
   | .reg n s f => Json.arr #[jstr "reg", jstr n, jnat s, jb f]
   | .ext n s f => Json.arr #[jstr "ext", jstr n, jnat s, jb f]
-  | .slc x p s f r => Json.arr #[jstr "slc", dump x, jnat p, jnat s, jb f, jopt jstr r]
+  | .slc x p s f r k => Json.arr #[jstr "slc", dump x, jnat p, jnat s, jb f, jopt jstr r, jnat k]
   | .comp s f ps =>
       Json.arr #[jstr "comp", jnat s, jb f, jlist (fun (p : Part) => Json.arr #[jnat p.1, jnat p.2.1, dump p.2.2]) ps]
   | .tst t l r s f => Json.arr #[jstr "tst", dump t, dump l, dump r, jnat s, jb f]
@@ -76,7 +76,7 @@ partial def parse (j : Json) : Except String Expr := do
   | "ext" => return .ext (← str 1) (← nat 2) (← bool 3)
   | "slc" =>
       let r := match (← arrGet a 5).getStr? with | .ok s => some s | .error _ => none
-      return .slc (← sub 1) (← nat 2) (← nat 3) (← bool 4) r
+      return .slc (← sub 1) (← nat 2) (← nat 3) (← bool 4) r (← nat 6)
   | "comp" =>
       let ps ← (← arrGet a 3).getArr?
       let parts ← ps.toList.mapM (fun pj => do
